@@ -52,6 +52,7 @@ type Rec struct {
 	Task    string `json:"task"`
 	Batches []Batch `json:"batches,omitempty"` // stream
 	PartKeys []string `json:"part_keys,omitempty"`
+	Streams [][]Batch `json:"streams,omitempty"`
 	Node    int    `json:"node"`
 	InvMs   int64  `json:"inv_ms"`
 	RetMs   int64  `json:"ret_ms"`
@@ -205,7 +206,7 @@ func New(sc *Scenario) (*World, error) {
 		return nil
 	}
 	w.KV.CompKey = []byte(fmt.Sprintf("%s/%s", sc.Prefix, "compact_key"))
-	if len(sc.Parts) > 0 {
+	if len(sc.Parts) > 0 && sc.Extra["tikv_regions"] == 0 {
 		var borders [][]byte
 		for _, p := range sc.Parts {
 			b, _ := hex.DecodeString(p)
@@ -233,6 +234,14 @@ func cutPartitions(start, end []byte, borders [][]byte, shuffle int64) []storage
 		}
 	}
 	sort.Slice(in, func(i, j int) bool { return string(in[i]) < string(in[j]) })
+	// an engine never reports an empty piece: drop duplicate borders
+	uniq := in[:0]
+	for i, b := range in {
+		if i == 0 || string(b) != string(in[i-1]) {
+			uniq = append(uniq, b)
+		}
+	}
+	in = uniq
 	var ps []storage.Partition
 	cur := start
 	for _, b := range in {
@@ -312,7 +321,11 @@ func (w *World) Start() {
 			w.S.YieldUntil("client.wait", func() bool { return w.proDone })
 			for i, op := range sc.Clients[ci].Ops {
 				w.exec(cs, i, op)
-				w.S.Yield("client.next")
+				if sc.Extra["lockstep"] != 0 {
+					w.S.YieldIdle("client.lockstep") // strictly sequential: let the node go quiescent first
+				} else {
+					w.S.Yield("client.next")
+				}
 			}
 			cs.finished = true
 			w.done++
